@@ -93,11 +93,28 @@ def run(ck):
         except ValueError as ex:
             ck.notes.setdefault("outside_fragment", []).append(str(ex)[:100])
 
+    def ids_only(nodes):
+        """the identities as the implementation reports them, without the harness' own recomputation of the preimages
+        (so that the discrimination oracle keeps judging when the preimage layout is no longer the known one)"""
+        import copy as _copy
+        from semantiva.inspection import build_inspection_payload
+        return G._payload_ids(build_inspection_payload(_copy.deepcopy(nodes)))
+
     for name, nodes in bases:
         try:
             base = G.observe(nodes, runs=0)
         except G.Mismatch as ex:
             ck.corr_problem("harness recomputation of the implementation's preimage does not give its id", str(ex), case={"nodes": nodes})
+            try:
+                b0 = ids_only(nodes)
+            except Exception:  # noqa
+                continue
+            for op, pos, mut in G.mutations(nodes):
+                try:
+                    judge(ck, op, pos, nodes, mut, b0, ids_only(mut))
+                    evaluations += 1
+                except Exception:  # noqa - mutated configuration rejected
+                    pass
             continue
         except Exception as ex:  # noqa
             ck.notes.setdefault("rejected_bases", []).append("%s: %r" % (name, ex))
@@ -112,6 +129,11 @@ def run(ck):
                 ob = G.observe(mut, runs=0)
             except G.Mismatch as ex:
                 ck.corr_problem("harness recomputation of the implementation's preimage does not give its id", str(ex), case={"nodes": mut})
+                try:
+                    judge(ck, op, pos, nodes, mut, base, ids_only(mut))
+                    evaluations += 1
+                except Exception:  # noqa
+                    pass
                 continue
             except Exception:  # noqa - mutated configuration rejected by the implementation
                 rejected += 1
@@ -128,7 +150,22 @@ def run(ck):
                 ck.fail_input("C05:duplicate-node-uuid", "two nodes of one pipeline share a uuid", {"kind": "dup", "nodes": mut})
 
     # stored failing input of the finding selected by the generated fact
-    a = [G.observe(c, runs=0) for c in MIN_A]
+    def obs(c):
+        try:
+            return G.observe(c, runs=0)
+        except G.Mismatch as ex:
+            ck.corr_problem("harness recomputation of the implementation's preimage does not give its id", str(ex), case={"nodes": c})
+            d = ids_only(c)
+            d["fallback"] = True
+            return d
+
+    _add_case = add_case
+
+    def add_case(tag, nodes, ob):  # noqa: F811 - model cases need the recomputed tables
+        if not ob.get("fallback"):
+            _add_case(tag, nodes, ob)
+
+    a = [obs(c) for c in MIN_A]
     evaluations += 3
     if not facts["sem_includes_sweep"]:
         if not (a[0]["semid"] == a[1]["semid"] == a[2]["semid"]):
@@ -139,12 +176,12 @@ def run(ck):
             if not (a[0]["uuids"] == a[1]["uuids"] == a[2]["uuids"]):
                 ck.corr_problem("stored failing input: node uuids were expected to coincide", json.dumps(MIN_A))
     # reserved member names (keys that the id functions strip at any depth)
-    b = [G.observe(c, runs=0) for c in MIN_B]
+    b = [obs(c) for c in MIN_B]
     evaluations += 2
     add_case("reserved/expr", MIN_B[0], b[0])
     add_case("reserved/expr'", MIN_B[1], b[1])
     judge(ck, "sweep.variable_domain", "variable named expr", MIN_B[0], MIN_B[1], b[0], b[1], reserved=True)
-    b2 = [G.observe(c, runs=0) for c in MIN_B2]
+    b2 = [obs(c) for c in MIN_B2]
     evaluations += 2
     add_case("reserved/preprocessor_view", MIN_B2[0], b2[0])
     add_case("reserved/preprocessor_view'", MIN_B2[1], b2[1])
